@@ -525,6 +525,10 @@ func (i *interpreter) toNative(v value) interface{} {
 		if v.t == nil {
 			return nil
 		}
+		if rv, ok := v.v.(rvalue); ok {
+			// fmt prints the value a reflect.Value holds, structurally, without calling its methods at the top level
+			return i.toNativeTyped(v.t, rv)
+		}
 		if s, ok := i.callStringMethod(v, "Error"); ok {
 			return errors.New(s)
 		}
@@ -541,6 +545,13 @@ type stringer string
 func (s stringer) String() string { return string(s) }
 
 func (i *interpreter) toNativeTyped(t types.Type, v value) interface{} {
+	// fmt follows maps, slices and interface values without a visited set: a value that contains itself makes the
+	// real fmt recurse until the goroutine stack is exhausted, which ends the process
+	i.fmtDepth++
+	defer func() { i.fmtDepth-- }()
+	if i.fmtDepth > 200 {
+		panic(engineAbort{kind: "crash", msg: "fatal error: stack overflow (fmt formatting a value that contains itself)"})
+	}
 	switch v := v.(type) {
 	case sym:
 		i.stub("fmt: symbolic value printed as placeholder")
